@@ -18,7 +18,7 @@ from concurrent.futures import ThreadPoolExecutor
 import numpy as np
 import odl
 
-from ..tlc import run_tlc
+from ..tlc import run_tlc, parse_fails
 from ..common import dumps, MachineryError
 from .. import oputil as U
 from .. import linops as L
@@ -188,18 +188,16 @@ def run(ctx):
     ctx.add_tlc('trace-builtin-adjoints', res)
     ctx.traces += len(bev)
     nfail = 0
-    for ln in res.output.splitlines():
-        m = re.match(r'<<"FAIL", (\d+), (\d+), (.*)>>$', ln.strip())
-        if m:
+    for _ln, k, _cl in parse_fails(res.output):
+        if True:
             nfail += 1
-            k = int(m.group(2))
             sig, opts, family = meta[k]
-            for clause in sorted(set(re.findall(r'<<"([\w-]+)"', m.group(3)))):
+            for clause in sorted(set(re.findall(r'<<\s*"([\w-]+)"', _cl))):
                 s = dict(sig, clause=clause)
                 if clause == 'raised':
                     s['exc'] = bev[k]['err']
                 ctx.violation(s, {'stage': 'builtin', 'class': family, 'options': opts, 'event': bev[k],
-                                  'tlc_clauses': m.group(3)})
+                                  'tlc_clauses': _cl})
     ctx.extra['builtin_recipes_checked'] = len(bev)
     ctx.extra['builtin_recipes_rejected_by_tlc'] = nfail
     ctx.extra['builtin_exact_mode'] = sum(1 for e in bev if e['exact'] and not e['err'])
